@@ -113,6 +113,7 @@ func lemmaCmpTrans(a, b, c Object) (ab, bc, ac int, eab, ebc, eac bool) {
 //@ func MakeObjectSlice
 //@   requires n >= 0
 //@   modifies *
+//@   fresh
 //@   maypanic would exceed memory
 //@   ensures  len(result) == 0 && cap(result) == n
 //@   ensures  n <= 256 || n * 16 < membudget()
@@ -227,7 +228,8 @@ func lemmaCmpTrans(a, b, c Object) (ab, bc, ac int, eab, ebc, eac bool) {
 
 // ---- constants (C19): the checking setter refuses to rebind an all-upper-case name to a different value ----
 //@ func (*Environment).CreateOrSet
-//@   requires e != nil && val != nil
+//@   requires e != nil
+//@   requires @C19 val != nil
 //@   modifies *
 //@   nosafety
 //@   maypanic *
@@ -243,3 +245,44 @@ func lemmaCmpTrans(a, b, c Object) (ab, bc, ac int, eab, ebc, eac bool) {
 //@   nosafety
 //@   maypanic *
 //@   property C19
+
+// ---- integer registers (C05): allocation is bounded by NumRegisters and strictly LIFO ----
+//@ func (*Environment).HasRegisters
+//@   requires e != nil
+//@   pure
+//@   ensures  result == (e.numReg < 8)
+//@   property C05
+
+//@ func (*Environment).MakeRegister
+//@   requires e != nil && 0 <= e.numReg
+//@   requires capacity:: e.numReg < 8
+//@   modifies e.numReg, e.registers, map token.interning
+//@   trustframe
+//@   ensures  e.numReg == old(e.numReg) + 1 && result.Idx == old(e.numReg) && result.RefEnv == e
+//@   property C05 C07
+
+//@ func (*Environment).ReleaseRegister
+//@   requires e != nil
+//@   requires lifo:: register.Idx == e.numReg - 1
+//@   modifies e.numReg
+//@   ensures  e.numReg == old(e.numReg) - 1
+//@   property C05 C07
+
+// Escaping values are copied out of the register file: the copy is an Integer holding the register's current value.
+//@ func CopyRegister
+//@   nosafety
+//@   ensures  noreg:: !isType(result, *Register)
+//@   ensures  identity:: implies(!isType(o, *Register), result == o)
+//@   ensures  value:: implies(isType(o, *Register), isType(result, Integer))
+//@   property C05
+
+//@ func NewFunctionEnvironment
+//@   requires current != nil && (streq(current.cacheKey, fn.CacheKey) || fn.Env != nil)
+//@   ensures  fresh:: result0 != nil && !old(allocated(result0)) && result0.numReg == 0
+//@   property C05
+
+// Ptr returns &r.RefEnv.registers[r.Idx], an interior pointer (outside govc's subset: assumed).
+// An address-of expression is never nil in Go.
+//@ func (*Register).Ptr assumed
+//@   pure
+//@   ensures  result != nil
